@@ -84,7 +84,7 @@ func (aux *Aux) Call(gf slip.Object, s *slip.Scope, args slip.List, depth int) s
 		return meth.Call(s, args, depth)
 	}
 	// No matches on methods so call no-applicable-method (g, args...).
-	nam := slip.MustFindFunc("no-applicable-method")
+	nam := slip.MustFindFunc("no-applicable-method", &Pkg)
 
 	return nam.Apply(s, append(slip.List{gf}, args...), depth)
 }
